@@ -248,7 +248,9 @@ def check_find(pid, tier, seed):
     if pid in ("C05", "C06") and not q:
         # the rule half of the search for EVERY interleaving rule, year and table end: machine-checked proof (TLAPS) that the
         # window walk returns exactly the candidates >= the table end whose clock shows the searched time
-        res.notes["tlaps_unbounded_proofs"] = [C.run_tlapm("proofs/RuleWindow.tla")]
+        # ... and the table half for a table of ANY length: the loop over the transitions returns exactly the instants before the last
+        # transition at which the table's clock shows the searched time, exactly the structural gaps, in non-decreasing order
+        res.notes["tlaps_unbounded_proofs"] = [C.run_tlapm("proofs/RuleWindow.tla"), C.run_tlapm("proofs/TableWalk.tla")]
     if pid in ("C05", "C06"):
         # the recorded finding K1 reproduced at the specification level: on an accepted rule whose yearly periods overlap, the
         # window walk of the algorithm layer (Algo.tla, shaped like find_date_time) returns an entry twice
